@@ -300,6 +300,15 @@ def _model_loop(E, dt, steps, msteps, dtid, k, ctx, modtext, modname):
                 _fail(E, idx, ['GotWantException'], True, (ms['want_line'], ms['want_line']))
             E.notes.append('traceback want but nothing raised')
             break
+        if want == 'coro':
+            # by construction: the value's repr starts with the spelled-out prefix; the
+            # address is covered by the ellipsis iff ELLIPSIS is on
+            ok = flags['ELLIPSIS'] and isinstance(res['value_repr'], str) and res['value_repr'].startswith('<coroutine object Peer.aop at ')
+            if ok:
+                window = []
+                continue
+            _fail(E, idx, ['GotWantException'], True, (ms['want_line'], ms['want_line']))
+            break
         if want == 'ell':
             # decided by construction: 'prefix...' equals the output iff the ellipsis is a
             # wildcard (ELLIPSIS on) and the output starts with that prefix
